@@ -29,11 +29,11 @@ type Reader struct {
 // A frame adds at most this many bytes of overhead to some data by prefixing
 // the data with:
 //
-//	1: control byte
-//	9: maximum varint stream id
-//	9: maximum varint message id
-//	9: maximum varint data length
-const maxFrameOverhead = 1 + 9 + 9 + 9
+//	 1: control byte
+//	10: maximum varint stream id
+//	10: maximum varint message id
+//	10: maximum varint data length
+const maxFrameOverhead = 1 + 10 + 10 + 10
 
 // NewReader constructs a Reader to read Packets from the io.Reader.
 func NewReader(r io.Reader) *Reader {
@@ -98,6 +98,14 @@ func (r *Reader) ReadPacketUsing(buf []byte) (pkt Packet, err error) {
 			return Packet{}, drpc.ProtocolError.Wrap(err)
 
 		case !ok:
+			// r.curr holds only the beginning of a frame. If that is already
+			// more than the largest frame we accept, it can never fit. This
+			// must look at the unparsed frame only (not at everything a read
+			// returned) so that the result does not depend on read sizes.
+			if len(r.curr)-maxFrameOverhead > r.opts.MaximumBufferSize {
+				return Packet{}, drpc.ProtocolError.New("data overflow")
+			}
+
 			// r.curr doesn't have enough data for a full frame, so prepend
 			// it to the read buffer if it is in the appropriate state.
 			if len(r.buf) == 0 {
@@ -120,10 +128,6 @@ func (r *Reader) ReadPacketUsing(buf []byte) (pkt Packet, err error) {
 				return Packet{}, drpc.ProtocolError.New("data overflow")
 			}
 			r.buf = r.buf[:ncap]
-
-			if len(r.buf)-maxFrameOverhead > r.opts.MaximumBufferSize {
-				return Packet{}, drpc.ProtocolError.New("data overflow")
-			}
 
 			r.curr = r.buf
 			continue
